@@ -12,6 +12,15 @@ BASE_NOTE = (
 
 # property -> (category, text, technique, design_ref, extra note)
 CLAIMS = {
+    "C17": (
+        "proof",
+        "Frame (write-set) obligations over the real ASTs, enumerated mechanically on every run: none of the render / evaluate / children / scope methods of any Node or Expression subclass stores into or mutates its own object (150+ methods); "
+        "no filter function mutates (or stores into) an object reachable from its parameters (80+ filters); every memoised function (lru_cache) reads no clock/environment and its key does not conflate arguments it treats by type; "
+        "no function of liquid/** writes a module-level mutable container. A bounded history check deep-compares render data before/after every array filter and replays all ordered pairs of history-sensitive templates against a fresh environment.",
+        "frame / write-set contract obligations discharged syntactically over the real ASTs (pyvc-flow) + bounded history contract check",
+        "DESIGN.md section 4 C17",
+        "Write sets are syntactic (receiver rooted at self / at a parameter); aliasing through other locals is covered by the bounded deep-copy comparison only.",
+    ),
     "C15": (
         "proof",
         "RenderContext.copy(block_scope=False) is verified with a frame/alias obligation on the symbolic heap: the new context has fresh empty locals, its scope is [its locals, chain(namespace, caller globals), builtin, its counters], "
